@@ -109,13 +109,59 @@ Proof. revert v; induction n; intros; cbn [to_le length]; [|rewrite IHn]; reflex
 Lemma to_be_length n v : length (to_be n v) = n.
 Proof. unfold to_be. rewrite rev_length. apply to_le_length. Qed.
 
+Lemma le_bytes_spec n v : le_bytes n v = to_le n v.
+Proof.
+  revert v. induction n as [|n IH]; intros v; cbn [le_bytes to_le]; [reflexivity|].
+  rewrite IH. f_equal.
+  - change 255%N with (N.ones 8). apply N.land_ones.
+  - f_equal. apply N.shiftr_div_pow2.
+Qed.
+Lemma be_bytes_spec n v : be_bytes n v = to_be n v.
+Proof. unfold be_bytes, to_be. rewrite le_bytes_spec. reflexivity. Qed.
+
+Lemma fmod_spec q v : fmod q v = v mod q.
+Proof.
+  unfold fmod.
+  destruct (Z.leb_spec 0 v) as [P|Ng].
+  - destruct (Z.ltb_spec v q) as [L|G]; [symmetry; apply Z.mod_small; lia|].
+    cbv zeta. destruct (Z.ltb_spec (v - q) q) as [L1|G1]; [|reflexivity].
+    apply Z.mod_unique with (q := 1); lia.
+  - cbv zeta. destruct (Z.leb_spec 0 (v + q)) as [P1|N1]; [|reflexivity].
+    apply Z.mod_unique with (q := -1); lia.
+Qed.
+
+Lemma of_le_app a b : of_le (a ++ b) = (of_le a + 256 ^ N.of_nat (length a) * of_le b)%N.
+Proof.
+  induction a as [|x r IH]; cbn [app of_le length].
+  - change (256 ^ N.of_nat 0)%N with 1%N. lia.
+  - rewrite IH. rewrite Nnat.Nat2N.inj_succ, N.pow_succ_r'. lia.
+Qed.
+
+Lemma be_acc_spec l acc : be_acc l acc = (acc * 256 ^ N.of_nat (length l) + of_be l)%N.
+Proof.
+  revert acc. induction l as [|x r IH]; intros acc; cbn [be_acc length].
+  - unfold of_be. cbn [rev of_le]. change (256 ^ N.of_nat 0)%N with 1%N. lia.
+  - rewrite IH. unfold of_be. cbn [rev]. rewrite of_le_app. cbn [of_le]. rewrite rev_length.
+    rewrite N.shiftl_mul_pow2. change (2 ^ 8)%N with 256%N.
+    rewrite Nnat.Nat2N.inj_succ, N.pow_succ_r'. lia.
+Qed.
+
+Lemma reduce_be_spec q b : reduce_be q b = Z.of_N (of_be b) mod q.
+Proof. unfold reduce_be. rewrite fmod_spec, be_acc_spec. rewrite N.mul_0_l, N.add_0_l. reflexivity. Qed.
+
+Lemma dd_spec q beta vx at_ j k :
+  dd q beta vx at_ j k = (alpha q vx j k + (if beta j then alpha q at_ j k else 0)) mod q.
+Proof. unfold dd. apply fmod_spec. Qed.
+Lemma scalar_bytes_spec q z : scalar_bytes q z = to_be 32 (Z.to_N (z mod q)).
+Proof. unfold scalar_bytes. rewrite be_bytes_spec, fmod_spec. reflexivity. Qed.
+
 Section Codec.
   Variable q : Z.
   Hypothesis q_range : 0 < q <= 2 ^ 256.
 
   Lemma reduce_scalar_bytes z : reduce_be q (scalar_bytes q z) = z mod q.
   Proof.
-    unfold reduce_be, scalar_bytes. rewrite of_be_to_be.
+    rewrite reduce_be_spec, scalar_bytes_spec. rewrite of_be_to_be.
     assert (R : 0 <= z mod q < q) by (apply Z.mod_pos_bound; lia).
     rewrite N.mod_small.
     - rewrite Z2N.id by lia. apply Zmod_mod.
@@ -125,9 +171,9 @@ Section Codec.
   Lemma scalar_bytes_inj x y : scalar_bytes q x = scalar_bytes q y -> x mod q = y mod q.
   Proof. intros E. rewrite <- !reduce_scalar_bytes. rewrite E. reflexivity. Qed.
 
-  Lemma scalar_bytes_eqmod x y : x mod q = y mod q -> scalar_bytes q x = scalar_bytes q y.
-  Proof. unfold scalar_bytes. intros ->. reflexivity. Qed.
-
   Lemma reduce_be_range b : 0 <= reduce_be q b < q.
-  Proof. unfold reduce_be. apply Z.mod_pos_bound. lia. Qed.
+  Proof. rewrite reduce_be_spec. apply Z.mod_pos_bound. lia. Qed.
 End Codec.
+
+Lemma scalar_bytes_eqmod q x y : x mod q = y mod q -> scalar_bytes q x = scalar_bytes q y.
+Proof. rewrite !scalar_bytes_spec. intros ->. reflexivity. Qed.
